@@ -105,7 +105,10 @@ func pick(r *rand.Rand, ss []string) string { return ss[r.Intn(len(ss))] }
 // or a two-digit limit.
 func captureLit(r *rand.Rand) string {
 	if r.Intn(12) == 0 {
-		return pick(r, []string{"08", "09", "007", "010", "0", "00", "12", "02", "-1", "-2", "+2", "-0", "+1"})
+		if r.Intn(3) == 0 {
+			return pick(r, []string{"-1", "-2", "+2", "-0", "+1"})
+		}
+		return pick(r, []string{"08", "09", "007", "010", "0", "00", "12", "02", "018"})
 	}
 	return string(rune('1' + r.Intn(3)))
 }
@@ -308,6 +311,9 @@ func InstSeg(r *rand.Rand, s *rmodel.Segment, final bool) []string {
 		}
 		if r.Intn(300) == 0 {
 			n = []int{126, 127, 128, 129, 255, 256, 257, 300}[r.Intn(8)] // spans around integer-width boundaries
+		}
+		if sg.Kind == rmodel.KAll && sg.Capture > 0 && r.Intn(4) == 0 {
+			n = sg.Capture + r.Intn(2) // exactly the limit, or one segment too many
 		}
 		out := make([]string, n)
 		for i := range out {
